@@ -55,6 +55,12 @@ func (x *Exec) intrinsic(fr *Frame, fn *ssa.Function, name string, args []Value,
 		x.assumedCtr[name] = true
 		return m(x, fr, args, pos), true
 	}
+	if name == "(*github.com/sirupsen/logrus.Logger).WithFields" || name == "(*github.com/sirupsen/logrus.Entry).WithFields" {
+		x.assumedCtr["logrus.WithFields returns a non-nil entry"] = true
+		o := x.newObject(nil, "logrus.Entry")
+		x.st.heap.m[o] = StructV{F: []Value{}}
+		return PtrV{Obj: o, Nil: False()}, true
+	}
 	// logging: no effect, but the receiver must not be nil
 	if strings.HasPrefix(name, "(*github.com/sirupsen/logrus.Entry).") || strings.HasPrefix(name, "(*github.com/sirupsen/logrus.Logger).") {
 		x.assumedCtr["logrus.* (no effect on verified state)"] = true
@@ -107,6 +113,10 @@ func (x *Exec) vcIntrinsic(fr *Frame, name string, args []Value, pos token.Pos) 
 	case "Requires":
 		label := x.constStr(args[0])
 		c := term(args[1])
+		if cm != nil && cm.probe {
+			cm.reqs = append(cm.reqs, c)
+			return nil
+		}
 		if cm != nil && !cm.prove {
 			// at a call site: precondition must be proved by the caller
 			saved := x.ghost
